@@ -120,7 +120,7 @@ class Build:
             add.append('attributes #8%s = { noinline optnone %s }' % (gid, body.strip()))
         tmp = ssa + '.stage1.ll'
         open(tmp, 'w').write(st2 + '\n' + '\n'.join(add) + '\n')
-        r = subprocess.run(['opt-14', '-S', '-passes=' + os.environ.get('VERIF_HOST_PASSES', 'sroa,sccp,jump-threading'),
+        r = subprocess.run(['opt-14', '-S', '-passes=' + os.environ.get('VERIF_HOST_PASSES', 'sroa,sccp'),
                             '-jump-threading-threshold=' + os.environ.get('VERIF_JT', '6'), tmp, '-o', ssa],
                            capture_output=True, text=True)
         if r.returncode != 0:
@@ -1245,8 +1245,132 @@ def _fold_constant_branches(f):
                 i.ops = [v for v, _ in inc]
 
 
+def _regs_in(v, out):
+    if isinstance(v, tuple):
+        if len(v) == 2 and v[0] == 'reg':
+            out.add(v[1])
+        else:
+            for x in v:
+                _regs_in(x, out)
+    elif isinstance(v, list):
+        for x in v:
+            _regs_in(x, out)
+
+
+def _thread_return_joins(f):
+    """The inliner leaves a block `<callee>.exit` where the inlined returns meet: a phi of the return values and,
+    when the caller only dispatches on the result, nothing but casts/tests and a branch or switch.  For the
+    predecessors that supply a constant the dispatch is decided: let them jump straight to their target (what the
+    code looked like before the helper was extracted).  Only done when nothing defined in the join is used elsewhere."""
+    for bname in [n for n in f.blocks if re.search(r'\.exit\d*$', n)]:
+        b = f.blocks.get(bname)
+        if b is None or not b.insns:
+            continue
+        real = [i for i in b.insns if i.op != 'dbg']
+        term = real[-1]
+        if term.op not in ('br', 'switch') or not term.ops or term.ops[0][0] != 'reg':
+            continue
+        body = [i for i in real[:-1] if not (i.op in ('call', 'bitcast') and
+                                            ((i.extra.get('callee') or '').startswith('llvm.lifetime.') or i.op == 'bitcast'))]
+        if any(i.op not in ('phi', 'zext', 'sext', 'trunc', 'icmp') for i in body):
+            continue
+        defs = {i.res: i for i in body}
+        # uses outside the block
+        used = set()
+        for ob in f.blocks.values():
+            if ob is b:
+                continue
+            for i in ob.insns:
+                if i.op == 'dbg':
+                    continue
+                _regs_in(i.ops, used)
+                if i.op == 'phi':
+                    _regs_in([v for v, _ in i.extra['incoming']], used)
+        if used & set(defs):
+            continue
+        phis = [i for i in body if i.op == 'phi']
+
+        def value_for(pred):
+            env = {}
+            for ph in phis:
+                for v, src in ph.extra['incoming']:
+                    if src == pred:
+                        env[ph.res] = v[1] if v[0] == 'int' else (0 if v[0] in ('zero', 'null') else None)
+            for i in body:
+                if i.op == 'phi':
+                    continue
+                a = i.ops[0]
+                av = a[1] if a[0] == 'int' else env.get(a[1]) if a[0] == 'reg' else None
+                if av is None:
+                    env[i.res] = None
+                    continue
+                if i.op in ('zext', 'sext', 'trunc'):
+                    bits = i.ty[1] if i.ty and i.ty[0] == 'int' else 64
+                    fb = i.extra.get('fty')
+                    fb = fb[1] if fb and fb[0] == 'int' else 64
+                    if i.op == 'sext' and av >> (fb - 1) & 1:
+                        av = av - (1 << fb)
+                    env[i.res] = av & ((1 << bits) - 1)
+                elif i.op == 'icmp':
+                    c = i.ops[1]
+                    cv = c[1] if c[0] == 'int' else (0 if c[0] in ('zero', 'null') else None)
+                    if cv is None or i.extra['pred'] not in ('eq', 'ne'):
+                        env[i.res] = None
+                    else:
+                        bits = i.extra['cty'][1] if i.extra.get('cty') and i.extra['cty'][0] == 'int' else 64
+                        m = (1 << bits) - 1
+                        env[i.res] = int(((av & m) == (cv & m)) == (i.extra['pred'] == 'eq'))
+            return env.get(term.ops[0][1])
+        for pred in list(dict.fromkeys(src for ph in phis for _, src in ph.extra['incoming'])):
+            if pred not in f.blocks:
+                continue
+            val = value_for(pred)
+            if val is None:
+                continue
+            if term.op == 'br':
+                if len(term.extra['targets']) != 2:
+                    continue
+                tgt = term.extra['targets'][0] if val & 1 else term.extra['targets'][1]
+            else:
+                tgt = term.extra['default']
+                for cv, t in term.extra['cases']:
+                    if cv == val:
+                        tgt = t
+            if tgt == bname or tgt not in f.blocks:
+                continue
+            tb = f.blocks[tgt]
+            tphis = [i for i in tb.insns if i.op == 'phi']
+            if any(src == pred for ph in tphis for _, src in ph.extra['incoming']):
+                continue        # the predecessor already reaches the target directly: values could differ
+            pt = f.blocks[pred].insns[-1]
+            if pt.op not in ('br', 'switch'):
+                continue
+            pt.extra['targets'] = [tgt if x == bname else x for x in pt.extra['targets']]
+            if pt.op == 'switch':
+                if pt.extra['default'] == bname:
+                    pt.extra['default'] = tgt
+                pt.extra['cases'] = [(cv, tgt if t == bname else t) for cv, t in pt.extra['cases']]
+            for ph in tphis:
+                for v, src in list(ph.extra['incoming']):
+                    if src == bname:
+                        ph.extra['incoming'].append((v, pred))
+                        ph.ops = [x for x, _ in ph.extra['incoming']]
+            for ph in phis:
+                ph.extra['incoming'] = [(v, src) for v, src in ph.extra['incoming'] if src != pred]
+                ph.ops = [v for v, _ in ph.extra['incoming']]
+        if phis and all(not ph.extra['incoming'] for ph in phis):
+            # nothing reaches the join any more
+            for ob in f.blocks.values():
+                for i in ob.insns:
+                    if i.op == 'phi':
+                        i.extra['incoming'] = [(v, src) for v, src in i.extra['incoming'] if src != bname]
+                        i.ops = [v for v, _ in i.extra['incoming']]
+            del f.blocks[bname]
+
+
 def _finish_function(f, dbgloc):
     _fold_constant_branches(f)
+    _thread_return_joins(f)
     for b in f.blocks.values():
         if not b.insns:
             broken('empty block %s in %s' % (b.name, f.name))
